@@ -30,10 +30,10 @@ def obligations():
                  'transaction row for every output of a registered script (lock and/or type), deletion of the RIGHT live cell + input history for every spent cell, '
                  'header rows iff something matched, nothing else', ex_filterblock,
                  '1 tx x 1 input x 1 output with optional type script (one lock and one type script registered), 1 stored transaction, arbitrary numbers', cuts=CUTS,
-                 timeout=1500, mem_gb=12, min_covers=2, weight=5, tiers=('quick',), rustflags='--cfg fb_small'),
+                 timeout=1500, mem_gb=12, min_covers=2, weight=5, tiers=('quick',), rustflags='--cfg fb_small', field_sensitivity=True),
         KModelOb('O3.1-filter-block-2tx', 'filterblock', 'filter_block_lock_only', 'as O3.1 with two transactions, so that a spend of an output created earlier in the same block is covered; '
                  'outputs without type scripts', ex_filterblock,
-                 '2 txs x 1 input x 1 output, outputs WITHOUT type scripts', cuts=CUTS, timeout=5400, mem_gb=24, min_covers=2, weight=9, tiers=('thorough',)),
+                 '2 txs x 1 input x 1 output, outputs WITHOUT type scripts', cuts=CUTS, timeout=5400, mem_gb=24, min_covers=2, weight=9, tiers=('thorough',), field_sensitivity=True),
         KModelOb('O3.1-filter-block-t', 'filterblock', 'filter_block_lock_and_type', 'as O3.1-filter-block-2tx with outputs that may also carry a type script', ex_filterblock,
-                 '2 txs x 1 input x 1 output with optional type scripts', cuts=CUTS, timeout=7200, mem_gb=24, min_covers=2, weight=9, tiers=('thorough',)),
+                 '2 txs x 1 input x 1 output with optional type scripts', cuts=CUTS, timeout=7200, mem_gb=24, min_covers=2, weight=9, tiers=('thorough',), field_sensitivity=True),
     ] + C13.key_obligations('O3.3')
